@@ -261,6 +261,13 @@ def varfont_overrides(ctx):
         lib = ["ufoLib2", "defcon"][i % 2]
         fn = ["compileVariableTTFs", "compileVariableCFF2s"][(i // 2) % 2]
         override = dict({k: int(v) for k, v in ov.items()}, **ovx)
+        # the family name overridden ACROSS the line between the two Windows encodings of a name record (BMP only: encoding 1;
+        # beyond the BMP: encoding 10), both ways, and within one encoding
+        src_fam, vf_fam = [("Fam", None), ("Fam", "Fam \U0001F600"), ("Fam \U0001F600", "Plain"), ("Fam", "Other")][i % 4]
+        for m_ in masters:
+            m_["info"]["familyName"] = src_fam
+        if vf_fam is not None:
+            override["familyName"] = vf_fam
         # a SECOND variable font in the same document overrides one unrelated attribute only: every other field of it -- and of a
         # static font compiled from the default master afterwards -- shows the source's values, not the first font's overrides
         ds, fonts = dsgen.make_designspace(rng, masters, lib, instances=False, vf_info=[override, {"openTypeNameDesigner": "Second"}])
@@ -277,6 +284,11 @@ def varfont_overrides(ctx):
         except Exception as e:
             ctx.spec_failure(case, "%s with public.fontInfo overrides raised %s: %s\n%s" % (fn, type(e).__name__, e, traceback.format_exc()[-1000:]))
             continue
+        if vf_fam is not None:
+            recs = [(n.nameID, n.platformID, n.platEncID, n.toUnicode()) for n in loaded[0]["name"].names if n.nameID in (1, 4, 16)]
+            stale = [r for r in recs if not r[3].startswith(vf_fam)]
+            if stale or not recs:
+                ctx.spec_failure(dict(case, name_records=recs), "the variable font's family name is overridden to %r, but it carries the name records %r" % (vf_fam, stale or recs))
         for tt, ov, ovx, case in ((loaded[0], ov, ovx, case),
                                   (loaded[1], {}, {}, dict(case, judged="the second variable font of the document (overrides the designer only)")),
                                   (loaded[2], {}, {}, dict(case, judged="the default master compiled alone afterwards"))):
